@@ -112,3 +112,45 @@ Proof.
     destruct Hin as [Hin|[Hin|[]]]; [discriminate Hin|]. injection Hin as <-. vm_compute in Ho. injection Ho as <-. reflexivity.
   - intros id0 rc0 Hs. vm_compute in Hs. injection Hs as _ <-. reflexivity.
 Qed.
+
+(* ------------------------------------------------ the request after the restart (CrashAny11.v) *)
+From Sessions Require Import Proofs.CrashAny9 Proofs.CrashAny11.
+From Sessions Require Proofs.CrashRestart.
+
+Definition ca_r2 : reqstep := lk_rq 2 (PForge (CKey (KGen 0))) false [] None.
+
+(* computed, for every n: the session the next request is given *)
+Example ca_restart_answers :
+  map (fun n => let o := snd (step (fst (step ca_w (HReq (ca_r (Some n))))) (HReq ca_r2)) in
+                (ob_res o, option_map (fun kr => (fst kr, CrashFault3.dat (snd kr), CrashFault3.uid (snd kr))) (ob_start o)))
+      (seq 0 12) =
+  [(RSess, Some (KGen 1, [(1, 2)], Some 5)); (RSess, Some (KGen 1, [(1, 2); (7, 7)], Some 5)); (RSess, Some (KGen 1, [(1, 2); (7, 7)], Some 5));
+   (RSess, Some (KGen 2, [(1, 2); (7, 7)], Some 5)); (RSess, Some (KGen 2, [(1, 2); (7, 7); (8, 8)], Some 5));
+   (RSess, Some (KGen 2, [(1, 2); (7, 7); (8, 8)], None)); (RSess, Some (KGen 2, [(1, 2); (7, 7); (8, 8)], Some 6));
+   (RSess, Some (KGen 2, [(1, 2); (7, 7); (8, 8)], Some 6)); (RSess, Some (KGen 3, [(1, 2); (7, 7); (8, 8)], Some 6));
+   (RSess, Some (KGen 3, [(7, 7); (8, 8)], Some 6)); (RSess, Some (KGen 3, [(7, 7); (8, 8)], Some 6)); (RSess, Some (KGen 3, [(7, 7); (8, 8)], Some 6))]%N.
+Proof. vm_compute. reflexivity. Qed.
+
+(* the theorem applied at n = 3 (the stop falls between the two saves of RegenerateID) *)
+Example ca_restart_theorem :
+  let w' := fst (step ca_w (HReq (ca_r (Some 3)))) in
+  ob_res (snd (step w' (HReq ca_r2))) = RSess /\
+  exists id rc, ob_start (snd (step w' (HReq ca_r2))) = Some (id, rc) /\ r_ref rc = None /\
+    (CrashFault3.dat rc = [(1, 2)]%N \/ In (CrashFault3.dat rc) (script_data [(1, 2)]%N (rq_script (ca_r None)))).
+Proof.
+  cbv zeta. destruct ca_world as (_ & _ & _ & Hp & Hg). destruct ca_step as (_ & _ & _ & _ & _ & Hnd & _).
+  destruct (lookup (store (w_st ca_w)) (last [KGen 1] (KGen 0))) as [rn|] eqn:Hrn; [|vm_compute in Hrn; discriminate].
+  assert (HD : CrashFault3.dat rn = [(1, 2)]%N) by (vm_compute in Hrn; injection Hrn as <-; reflexivity).
+  assert (H : ob_res (snd (step (fst (step ca_w (HReq (ca_r (Some 3))))) (HReq ca_r2))) = RSess /\
+    exists id rc, ob_start (snd (step (fst (step ca_w (HReq (ca_r (Some 3))))) (HReq ca_r2))) = Some (id, rc) /\ r_ref rc = None /\
+      (CrashFault3.dat rc = CrashFault3.dat rn \/ In (CrashFault3.dat rc) (script_data [(1, 2)]%N (rq_script (ca_r (Some 3))))));
+    [|rewrite HD in H; exact H].
+  apply (restart_presented ca_w (ca_r (Some 3)) 3 (KGen 0) [KGen 1] rn [(1, 2)]%N ca_r2 ca_LIx Hg eq_refl eq_refl Hnd eq_refl Hp Hrn).
+  - intros o ob Hin Ho Hr. rewrite HD. vm_compute in Hin.
+    destruct Hin as [Hin|[Hin|[]]]; [discriminate Hin|]. injection Hin as <-. vm_compute in Ho. injection Ho as <-. reflexivity.
+  - intros id0 rc0 Hs. vm_compute in Hs. injection Hs as _ <-. reflexivity.
+  - reflexivity.
+  - reflexivity.
+  - reflexivity.
+  - intros rk Hk. vm_compute in Hk. injection Hk as <-. split; [vm_compute; reflexivity | intros _; vm_compute; reflexivity].
+Qed.
